@@ -123,9 +123,9 @@ def check(ctx):
     import gen_sflow
     import sflowlib
     gs = gen_sflow.Gen(ctx.rng)
-    cands = [gs.datagram(v6=False, sub=0, seq=0, only=1)[0] for _ in range(12)]
+    cands = [gs.datagram(v6=False, sub=0, seq=0, only=1)[0] for _ in range(24)]
     rr = sflowlib.run(ctx, sflowlib.driver(ctx), [{"msgs": [{"buf": b, "filter": []}]} for b in cands], "upprobe")
-    sf = next((b for b, x in zip(cands, rr) if not x.get("skipped") and "killed" not in x and x["res"][0]["st"] == "ok" and x["res"][0]["flows"]), None)
+    sf = next((b for b, x in zip(cands, rr) if not x.get("skipped") and "killed" not in x and x["res"][0]["st"] == "ok" and x["res"][0]["flows"] and len(b) <= 1400), None)      # (fits the 1500-octet receive buffer whole)
     if sf is None:
         raise vlib.Infra("no decodable sFlow datagram among the candidates")
     up = {}
@@ -439,9 +439,9 @@ def stats_views(ctx, thorough):
     binary = ctx.go_build_bin("vflow")
     gs = gen_sflow.Gen(ctx.rng)
     # one sFlow datagram (a flow sample) the stand-alone decoder accepts; the copies differ in their sequence number
-    cands = [gs.datagram(v6=False, sub=0, seq=0, only=1)[0] for _ in range(12)]
+    cands = [gs.datagram(v6=False, sub=0, seq=0, only=1)[0] for _ in range(24)]
     rr = sflowlib.run(ctx, sflowlib.driver(ctx), [{"msgs": [{"buf": b, "filter": []}]} for b in cands], "statsprobe")
-    sf = next((b for b, r in zip(cands, rr) if not r.get("skipped") and "killed" not in r and r["res"][0]["st"] == "ok" and r["res"][0]["flows"]), None)
+    sf = next((b for b, r in zip(cands, rr) if not r.get("skipped") and "killed" not in r and r["res"][0]["st"] == "ok" and r["res"][0]["flows"] and len(b) <= 1400), None)      # (fits the 1500-octet receive buffer whole)
     if sf is None:
         raise vlib.Infra("no decodable sFlow datagram among the candidates")
     good = {"ipfix": lambda i: c04.tpl_msg("ipfix", 400 + i % 7, 1) if i % 2 == 0 else c04.data_msg("ipfix", 400 + (i - 1) % 7),
